@@ -2,8 +2,9 @@
 From Verif Require Import Json Outcome Match PatIndex PatIndexSpec PatIndexProofs.
 (** D6: a pattern with a property-variable key is shadowed by a concrete key. *)
 Definition propvar_shadow := propvar_shadow_refuted.
-(** D32: a `null` element of a pattern array is cast twice when the pattern is
-    indexed ("S_null") but once when an event is searched ("null"). *)
-Definition null_in_array_refuted := null_in_array_counterexample.
+(** D32 (repaired in /repo): a `null` element of a pattern array used to be cast
+    twice when the pattern was indexed ("S_null") but once when an event is
+    searched ("null"); now it is found. *)
+Definition null_in_array_found := null_in_array_now_found.
 (** Two variables in one array pattern (outside the documented fragment). *)
 Definition two_array_vars_refuted := two_array_vars_counterexample.
